@@ -1,2 +1,337 @@
-// Package c11: (not built yet)
+// Package c11: printing and re-parsing an Excellent expression preserves its meaning; identity and
+// reference-renaming rewrites of templates preserve / change exactly what they should.
+//
+// Exploration: every sequence of vocabulary tokens up to a length bound is concatenated and given to
+// goflow's real parser; a prefix is abandoned only when the parser's first syntax error lies at a
+// token that no continuation can change (see enum.go), so exactly the parseable expressions of the
+// bound (and their prefixes) are visited. The oracle (oracle.go) runs on each parseable expression.
 package c11
+
+import (
+	"encoding/json"
+	"fmt"
+	"math/rand"
+	"sort"
+	"strings"
+	"time"
+
+	"verif/mc"
+)
+
+// A pass enumerates all sequences of length <= maxLen over a sub-vocabulary. Sequences that an
+// earlier pass of the same tier already contains are walked through but not evaluated again.
+type pass struct {
+	name     string
+	tokens   []string
+	maxLen   int
+	evalLen  int // Evaluator.Template on original vs rewritten templates for lengths <= evalLen
+	bruteLen int // the prefix pruning is cross-checked against the unpruned enumeration up to this length
+}
+
+var mid = []string{"a", "B", "f(", "1", "1.50", `"s"`, `"q\"\\"`, "true", "-", "+", "*", "^", "&", "=", "<", "(", ")", "[", "]", ".", ",", "=>", " "}
+var core = []string{"a", "1", "-", "^", "*", "+", "<", "=", "&", "(", ")"}
+
+func passes(tier string) []pass {
+	if tier == "quick" {
+		return []pass{
+			{"full", vocab, 6, 4, 4},
+			{"operators", core, 8, 0, 0},
+		}
+	}
+	return []pass{
+		{"full", vocab, 6, 5, 5},
+		{"mid", mid, 7, 0, 0},
+		{"operators", core, 10, 0, 0},
+	}
+}
+
+func indexes(tokens []string) []int {
+	var out []int
+	for _, t := range tokens {
+		found := false
+		for i, v := range vocab {
+			if v == t {
+				out = append(out, i)
+				found = true
+			}
+		}
+		if !found {
+			panic("not in vocabulary: " + t)
+		}
+	}
+	return out
+}
+
+type replay struct {
+	Tokens     []string `json:"tokens,omitempty"`
+	Expression string   `json:"expression"`
+	Key        string   `json:"key,omitempty"`
+}
+
+type runner struct {
+	c        *mc.Ctx
+	symHits  []int64
+	nodeHits [nNodeTypes]int64
+	earlier  []pass
+	evalLen  int
+	inVocab  [][]bool // per earlier pass
+}
+
+func (r *runner) coveredEarlier(toks []int) bool {
+	for pi, p := range r.earlier {
+		if len(toks) > p.maxLen {
+			continue
+		}
+		all := true
+		for _, t := range toks {
+			if !r.inVocab[pi][t] {
+				all = false
+				break
+			}
+		}
+		if all {
+			return true
+		}
+	}
+	return false
+}
+
+func (r *runner) visit(toks []int, s string) {
+	c := r.c
+	if r.coveredEarlier(toks) {
+		return
+	}
+	stages := stageExpr | stageStruct
+	if len(toks) <= r.evalLen {
+		stages |= stageEval
+	}
+	vs, info := checkExpr(s, stages)
+	c.Inc("distinct_nontrivial")
+	if stages&stageEval != 0 {
+		c.Inc("expressions_with_templates_evaluated")
+	}
+	for _, t := range toks {
+		r.symHits[t]++
+	}
+	for n := 0; n < nNodeTypes; n++ {
+		if info.nodes&(1<<n) != 0 {
+			r.nodeHits[n]++
+		}
+	}
+	if info.printed != s {
+		c.Inc("printed_form_differs_from_input")
+	}
+	if info.errDiffer {
+		c.Inc("both_fail_with_different_messages")
+	}
+	if info.scannedT1 {
+		c.Inc("templates_scanned_as_one_expression")
+	} else {
+		c.Inc("templates_not_scanned_as_expression(C12)")
+	}
+	if info.hasRefA {
+		c.Inc("expressions_with_reference_to_rename")
+	}
+	if info.isPath && stages&stageEval != 0 {
+		c.Inc("identifier_templates")
+	}
+	c.Outcome(strings.Join(info.classes[:], ","))
+	if c.WantSample() && len(toks) >= 5 && info.printed != s && info.hasRefA {
+		c.Sample(map[string]any{"tokens": tokStrings(toks), "expression": s, "printed": info.printed, "value_classes": info.classes})
+	}
+	for _, v := range vs {
+		c.Violation(v.key, v.what, replay{Tokens: tokStrings(toks), Expression: s, Key: v.key})
+	}
+}
+
+// ---- cross-check of the prefix pruning ----------------------------------------------------------
+
+// bruteCheck enumerates every sequence up to length L over the pass vocabulary WITHOUT pruning and
+// verifies that each one that parses would have been reached by the pruned walk.
+func (r *runner) bruteCheck(order []int, L int) {
+	c := r.c
+	var rec func(toks []int, s string, depth int, st int, last string, reach bool, idx int)
+	rec = func(toks []int, s string, depth int, st int, last string, reach bool, idx int) {
+		if depth >= L {
+			return
+		}
+		for _, y := range order {
+			if depth > 0 && y == tokGT && toks[depth-1] == tokEQ {
+				continue
+			}
+			cidx := idx*nVocab + y
+			if depth == 1 && !c.Mine(cidx) {
+				continue
+			}
+			creach := reach && st != stDead && !(st == stTailBad && !merging(last)[y])
+			ctoks := append(toks, y)
+			cs := s + vocab[y]
+			cst, clast := classify(cs)
+			if depth >= 1 {
+				c.Inc("unpruned_sequences_cross_checked")
+			}
+			if cst == stOK && depth >= 1 {
+				c.Inc("unpruned_parseable")
+				if !creach {
+					c.Violation("harness:pruning-loses-parseable-sequence", fmt.Sprintf("%q parses but the prefix test would have abandoned one of its prefixes", cs), replay{Tokens: tokStrings(ctoks), Expression: cs, Key: "harness:pruning"})
+				}
+			}
+			rec(ctoks, cs, depth+1, cst, clast, creach, cidx)
+		}
+	}
+	rec(make([]int, 0, L), "", 0, stViable, "", true, 0)
+}
+
+func run(c *mc.Ctx) {
+	started := time.Now()
+	defer func() {
+		c.Max("slowest_shard_s", int64(time.Since(started).Seconds()))
+		c.Add("shard_s_sum", int64(time.Since(started).Seconds()))
+	}()
+	ps := passes(c.Tier)
+	r := &runner{c: c, symHits: make([]int64, nVocab)}
+	c.Add("evaluations", 0)
+	for pi, p := range ps {
+		order := indexes(p.tokens)
+		if c.Seed != 0 {
+			rand.New(rand.NewSource(c.Seed)).Shuffle(len(order), func(i, j int) { order[i], order[j] = order[j], order[i] })
+		}
+		r.earlier = ps[:pi]
+		r.inVocab = nil
+		for _, ep := range r.earlier {
+			in := make([]bool, nVocab)
+			for _, i := range indexes(ep.tokens) {
+				in[i] = true
+			}
+			r.inVocab = append(r.inVocab, in)
+		}
+		r.evalLen = p.evalLen
+		shardDepth := 3
+		if p.maxLen >= 8 {
+			shardDepth = 4
+		}
+		w := &walker{maxLen: p.maxLen, shardDepth: shardDepth, mine: c.Mine, order: order, visit: r.visit, stop: c.Expired}
+		w.run()
+		c.Add("evaluations", w.classified)
+		c.Add("sequences_parsed:"+p.name, w.classified)
+		c.Add("parseable:"+p.name, w.parseable)
+		c.Add("prefix_viable:"+p.name, w.viable)
+		c.Add("abandoned_error_at_last_token:"+p.name, w.tailbad)
+		c.Add("abandoned_error_before_last_token:"+p.name, w.dead)
+		for l := 1; l <= p.maxLen; l++ {
+			c.Add(fmt.Sprintf("parseable:%s:len%d", p.name, l), w.perLen[l])
+		}
+		c.Max("max_tokens:"+p.name, int64(p.maxLen))
+		if w.stopped {
+			c.Cap(fmt.Sprintf("time budget reached in pass %q (all token sequences of length <= %d over %d symbols): subtrees are visited in a fixed order and every subtree started before the cap was completed", p.name, p.maxLen, len(p.tokens)))
+			break
+		}
+		if p.bruteLen > 0 {
+			r.bruteCheck(order, p.bruteLen)
+		}
+	}
+	for i, n := range r.symHits {
+		if n > 0 {
+			c.Add("symbol:"+vocab[i], n)
+			c.Fact("symbol:" + vocab[i])
+		}
+	}
+	for i, n := range r.nodeHits {
+		if n > 0 {
+			c.Add("node:"+nodeNames[i], n)
+			c.Fact("node:" + nodeNames[i])
+		}
+	}
+}
+
+func replayFn(c *mc.Ctx, raw json.RawMessage) (string, bool) {
+	var rp replay
+	if err := json.Unmarshal(raw, &rp); err != nil {
+		return "bad replay: " + err.Error(), false
+	}
+	var sb strings.Builder
+	if rp.Key == "harness:pruning" {
+		st, _ := classify(rp.Expression)
+		return fmt.Sprintf("expression %q: parser status %d (0 = parses)", rp.Expression, st), st == stOK
+	}
+	st, _ := classify(rp.Expression)
+	fmt.Fprintf(&sb, "expression: %q (tokens %q)\n", rp.Expression, rp.Tokens)
+	if st != stOK {
+		fmt.Fprintf(&sb, "does not parse: the property says nothing about it\n")
+		return sb.String(), false
+	}
+	vs, info := checkExpr(rp.Expression, stageAll)
+	fmt.Fprintf(&sb, "prints as: %q\nvalue classes per context: %v\n", info.printed, info.classes)
+	violated := false
+	for _, v := range vs {
+		fmt.Fprintf(&sb, "PROBLEM %s: %s\n", v.key, v.what)
+		if rp.Key == "" || v.key == rp.Key {
+			violated = true
+		}
+	}
+	return sb.String(), violated
+}
+
+func guards(r *mc.Result, tier string) []string {
+	var f []string
+	for _, t := range vocab {
+		if r.Facts["symbol:"+t] == 0 {
+			f = append(f, "no parseable expression used the symbol "+t)
+		}
+	}
+	for _, n := range nodeNames {
+		if r.Facts["node:"+n] == 0 {
+			f = append(f, "no syntax tree contained a "+n)
+		}
+	}
+	need := map[string]int64{
+		"distinct_nontrivial":                  100000,
+		"printed_form_differs_from_input":      1000,
+		"expressions_with_reference_to_rename": 1000,
+		"templates_scanned_as_one_expression":  100000,
+		"expressions_with_templates_evaluated": 5000,
+		"identifier_templates":                 10,
+		"unpruned_parseable":                   1000,
+	}
+	var names []string
+	for k := range need {
+		names = append(names, k)
+	}
+	sort.Strings(names)
+	for _, k := range names {
+		if r.Counters[k] < need[k] {
+			f = append(f, fmt.Sprintf("counter %s = %d, expected at least %d", k, r.Counters[k], need[k]))
+		}
+	}
+	// values, errors and functions must all have been produced
+	var classes string
+	for k := range r.Outcomes {
+		classes += k + ";"
+	}
+	for _, cl := range []string{"error", "text", "number", "boolean", "nil", "function", "object", "array"} {
+		if !strings.Contains(classes, cl) {
+			f = append(f, "no expression evaluated to "+cl)
+		}
+	}
+	return f
+}
+
+func init() {
+	mc.Register(&mc.Check{
+		ID:    "C11",
+		Level: "exploration",
+		Rule: "every sequence of vocabulary tokens (29 symbols: names a/B, call f(, numbers 1 and 1.50, three string literals incl. escapes and non-ASCII, true/FALSE/NULL, every operator, brackets, dot, comma, =>, and the space as a token of its own) up to 6 tokens is concatenated and parsed by goflow's parser; a prefix is abandoned only if the first syntax error is at a token no continuation can alter (cross-checked against the unpruned enumeration up to 4/5 tokens); further passes take a 23-symbol sub-vocabulary to 7 tokens (thorough) and an 11-symbol operator/parenthesis vocabulary to 8/10 tokens. " +
+			"evaluations = token sequences given to the parser; distinct_nontrivial = distinct sequences that parse (each is a different string; `=`+`>` is skipped as it equals the token `=>`), each run through: print, re-parse, print again, evaluation of both trees in 3 environments x 4 contexts binding a,b,f (object, array, number, text; function f), refactor.Template with a forced identity rewrite and with ContextRefRename(a->z) on `x @(e) y` compared structurally and by evaluation under the renamed context; for the shorter lengths also Evaluator.Template on original vs rewritten `x @(e) y`, `@(e)@(e)` and `hi @e y`.",
+		Assumptions: []string{
+			"bounded: token vocabulary and sequence length as stated in the rule; contexts are the 4 stated shapes",
+			"'fails alike' is read as: both evaluations fail (messages are not compared, differing messages are counted)",
+			"values are compared by dynamic type, Render, Format and JSON; anonymous functions by calling them with 0..3 arguments",
+			"a template that the scanner does not cut at the expression (string literal ending in an escaped backslash) is text for goflow: its rewrite is compared by evaluation only; the scanner itself is C12's subject",
+			"Evaluator.Template comparisons run on lengths <= 4 (quick) / <= 5 (thorough) of the full vocabulary; longer sequences are checked at expression level and through refactor.Template structurally",
+		},
+		Run:    run,
+		Replay: replayFn,
+		Guards: guards,
+		Budget: map[string]time.Duration{"quick": 4 * time.Minute, "thorough": 25 * time.Minute},
+	})
+}
